@@ -104,7 +104,7 @@ def gen(seed, run, tier='quick'):
     # systematic part: run i starts with the (i mod N)-th of all N op-symbol
     # sequences of length <= 3 that the grammar allows, so that a batch of N
     # runs covers every short prefix; the rest of the history is random
-    prefixes = _prefix_list()
+    prefixes = _prefix_list(4 if deep else 3)
     for sym in _split(prefixes[run % len(prefixes)]):
         kind, arg = sym[0], sym[1]
         if kind == 'E':
@@ -773,15 +773,16 @@ STUBS = ["system date (SimClock via date shim; constant in this check)",
          "with-block bodies (the simulator's interpreter)"]
 
 
-_PREFIXES = None
+_PREFIXES = {}
 
 
-def _prefix_list():
-    global _PREFIXES
-    if _PREFIXES is None:
-        _PREFIXES = sorted(_possible_prefixes(3),
-                           key=lambda p: (len(p), p))
-    return _PREFIXES
+def _prefix_list(n=3):
+    """Quick tier: all 4 755 sequences of length <= 3; thorough tier: all
+    81 415 of length <= 4 (a 600 s batch runs about that many)."""
+    if n not in _PREFIXES:
+        _PREFIXES[n] = sorted(_possible_prefixes(n),
+                              key=lambda p: (len(p), p))
+    return _PREFIXES[n]
 
 
 def _split(p):
@@ -825,7 +826,7 @@ def extra_coverage(results, reach):
     raise levels capped at 2)."""
     seen = reach.get('prefix4', set())
     cov = {}
-    for n in (1, 2, 3):
+    for n in (1, 2, 3, 4):
         poss = {p for p in _possible_prefixes(n) if len(p) == 2 * n}
         got = {p for p in seen if len(p) == 2 * n}
         cov[f'len{n}'] = {'seen': len(got & poss), 'possible': len(poss)}
